@@ -30,6 +30,9 @@ type c03Call struct {
 
 type c03Case struct {
 	Senders [][]c03Call `json:"senders"`
+	// AsBatch[i]: sender i hands its batchable calls over in ONE QueueBatch call (what SendBatch
+	// does), after queueing its other calls one by one
+	AsBatch []bool `json:"as_batch,omitempty"`
 	Queue   int         `json:"queue"`
 	FlushMS int         `json:"flush_ms"`
 	// Family of faults; every position is enumerated for the workload.
@@ -271,18 +274,34 @@ func c03InBubble(c c03Case, pos int) (ret c03Outcome) {
 		return call, marker, cancel
 	}
 	var cancels []context.CancelFunc
-	for _, calls := range c.Senders {
+	for si, calls := range c.Senders {
 		issue.Add(1)
+		asBatch := si < len(c.AsBatch) && c.AsBatch[si]
 		go func(calls []c03Call) {
 			defer issue.Done()
+			var batch []hrpc.Call
+			var after []context.CancelFunc
 			for _, spec := range calls {
 				call, marker, cancel := newCall(spec)
 				mu.Lock()
 				cancels = append(cancels, cancel)
 				mu.Unlock()
 				track(spec, call, marker)
+				if asBatch && spec.Batched && spec.Kind != "scan" {
+					batch = append(batch, call)
+					if spec.Cancel == "after" {
+						after = append(after, cancel)
+					}
+					continue
+				}
 				env.rc.QueueRPC(call)
 				if spec.Cancel == "after" {
+					cancel()
+				}
+			}
+			if len(batch) > 0 {
+				env.rc.QueueBatch(context.Background(), batch)
+				for _, cancel := range after {
 					cancel()
 				}
 			}
@@ -489,11 +508,17 @@ func c03Gen(t *rapid.T) c03Case {
 	for i := 0; i < ns && total < 12; i++ {
 		var calls []c03Call
 		k := rapid.IntRange(1, 4).Draw(t, "ncalls")
+		asBatch := rapid.IntRange(0, 2).Draw(t, "asbatch") == 0
+		if asBatch {
+			// batches larger than the queue size too
+			k = rapid.IntRange(1, 8).Draw(t, "nbatchcalls")
+		}
+		c.AsBatch = append(c.AsBatch, asBatch)
 		for j := 0; j < k && total < 12; j++ {
 			total++
 			calls = append(calls, c03Call{
 				Kind:    rapid.SampledFrom([]string{"get", "get", "put", "scan"}).Draw(t, "kind"),
-				Batched: rapid.Bool().Draw(t, "batched"),
+				Batched: asBatch && rapid.IntRange(0, 3).Draw(t, "inbatch") > 0 || rapid.Bool().Draw(t, "batched"),
 				Cancel:  rapid.SampledFrom([]string{"", "", "", "", "before", "after"}).Draw(t, "cancel"),
 				Answer:  rapid.Bool().Draw(t, "answer"),
 			})
@@ -507,7 +532,8 @@ func TestC03_ConnectionFailure(t *testing.T) {
 	theT = t
 	rec := evid.New("C03", "TestC03_ConnectionFailure",
 		"rapid + enumeration, virtual time: workloads of 1..12 calls (batched/unbatched gets and puts, scans; some with "+
-			"contexts cancelled before or after queueing) from 1..4 goroutines on one region client over an in-memory "+
+			"contexts cancelled before or after queueing) from 1..4 goroutines - each queueing call by call, or handing its batchable calls "+
+			"over in one QueueBatch of up to 8 calls (larger than the queue size too), as SendBatch does - on one region client over an in-memory "+
 			"connection; the harness answers a drawn subset. Each workload is first run fault-free to count connection "+
 			"operations K and requests R, then re-run twice for EVERY position of a drawn fault family: the k-th "+
 			"read/write/deadline/close operation fails (writes with 0, 1 or all-but-one bytes through), external Close when "+
